@@ -60,6 +60,7 @@ def run(ctx, out):
     last = some[1]["events"][-1]
     out.sample({"scenario": some[0]["scn"], "final_record_table": last.get("final", [])[:6], "rc_payloads": [m["k"] + ":" + str(len(m["ids"])) for m in last["st"]["rcbox"]]})
     out.note("leg C2S: %d races, %d traces accepted by TLC" % (len(jobs), out.traces_validated))
+    composite_leg(ctx, out)
     downsampling_leg(ctx, out, index)
     volume_leg(ctx, out)
 
@@ -194,5 +195,47 @@ def downsampling_leg(ctx, out, index):
     out.note("downsampling leg: %d races re-run with factor 2/3, %d accepted" % (len(items), v.accepted(len(items))))
 
 
+def composite_leg(ctx, out, cases=None):
+    """'plus one service_time record per dependent sub-request', at the source of those records: the REAL runner.Composite on seeded
+    random request trees (streams, operation items, latencies, scripted failures, max-connections) over the machinery of the extra
+    module Composite (specs/Composite, harness/extras/composite.py); only its clause TimingsOwn - the returned dependent timings are
+    exactly one per executed sub-request, each with its own type and instants - is a C07 verdict here."""
+    import random
+
+    from ..core import Outcome, Violation
+    from ..extras import composite as xc
+
+    if cases is None:
+        rnd = random.Random(ctx.seed + 707)
+        cases = [xc.random_case(rnd) for _ in range(250 if ctx.quick else 3000)]
+        cases = [c for c in cases if c["nodes"]]
+    sub = Outcome("C07-composite")
+    stats = {k: 0 for k in ("runs", "raised", "cancels", "aborted_requests", "orphan_runs", "rejected_after_sending", "limit_reached", "s2c_complete", "s2c_followed")}
+    stats["l1"] = {}
+    xc.run_cases(cases, sub, "c07comp", stats)
+    out.states += sub.states
+    out.transitions += sub.transitions
+    out.traces_validated += sub.traces_validated
+    bad = 0
+    for v in sub.violations:
+        if "TimingsOwn" not in v.clause.split(","):
+            continue
+        bad += 1
+        out.violations.append(Violation("DependentTimingPerSubRequest", {"composite_leg": True, "case": v.case}, signature={"clauses": ["DependentTimingPerSubRequest"], "leg": "composite"}, detail="composite leg: " + v.detail))
+    for c in cases:
+        out.add_case(("composite", c["maxc"], c["nodes"]), nontrivial=True)
+    out.extra["composite_leg"] = {"composites": len(cases), "returned_normally": stats["runs"] - stats["raised"], "violating": bad}
+    out.note("composite leg: %d composites on the real runner.Composite, %d returned normally, %d violating" % (len(cases), stats["runs"] - stats["raised"], bad))
+    return bad
+
+
 def replay(ctx, case):
+    if case.get("composite_leg"):
+        from ..core import Outcome
+
+        sub = Outcome("C07-composite-replay")
+        n = composite_leg(ctx, sub, cases=[case["case"]])
+        for v in sub.violations:
+            print("VIOLATION property=C07 clause=%s %s" % (v.clause, v.detail))
+        return 1 if n else 0
     return rc.replay_case(ctx, case, CLAUSES, "C07")
